@@ -10,7 +10,8 @@ def jobs(tier):
     js = []
     for sh in (SHAPES_Q if tier == "quick" else SHAPES_T):
         nm = sh.replace("(", "L").replace(")", "R").replace("!", "n")
-        js.append(vp.Job("conditionals.expr." + nm, "conditionals.cpp", {"MODE": 1, "SHAPE": '"%s"' % sh}, max_paths=300000, timeout=600, min_completed=1))
+        big = sh.count("o") >= 4       # 4^5 operand and 7^4 operator combinations: explored until the budget ends, pending reported
+        js.append(vp.Job("conditionals.expr." + nm, "conditionals.cpp", {"MODE": 1, "SHAPE": '"%s"' % sh}, max_paths=300000, timeout=600, min_completed=1, allow_partial=big))
     js.append(vp.Job("conditionals.nesting", "conditionals.cpp", {"MODE": 2}, max_paths=1000, timeout=300, min_completed=8))
     for k, t in BAD.items():
         js.append(vp.Job("conditionals.bad." + k, "conditionals.cpp", {"MODE": 3, "TEXT": '"%s"' % t}, max_paths=100, timeout=120, min_completed=1))
@@ -22,5 +23,6 @@ def main(tier):
         "operand digits and operator kinds of the condition are symbolic, branch selection of the nesting template is symbolic; Z3 decides that the image equals the branch an "
         "independent C-precedence evaluator selects, that untaken branches define no bytes, labels or defines, and that malformed conditionals are rejected.",
         ["condition operands: one-digit numbers 0..3 (all combinations), defined(X) on a defined and an undefined name; operators: == < > <= >= && || ! and parentheses; shapes listed in checks/C10.py",
+         "the thorough shape with four binary operators (NoNoNoNoN) is explored until its time budget ends (pending paths reported); all other shapes exhaustively",
          "oracle semantics: ! binds tightest, then comparisons (left associative), then &&, then || (docs/directives.md gives no other order)",
          "branch bodies are .db markers, a label and a .define; arbitrary instruction statements are outside the bound"])
